@@ -154,7 +154,11 @@ def _leaf_int(v):
 
 
 def _leaf_bytes(b):
-    return ("bytes", bytes(b))
+    b = bytes(b)
+    if len(b) > 64:   # long payloads enter the tree as length + SHA-256 (equal leaves <=> equal bytes, up to collisions)
+        import hashlib
+        b = b"\xff" + len(b).to_bytes(8, "little") + hashlib.sha256(b).digest()
+    return ("bytes", b)
 
 
 def tree_of(onnx, msg):
@@ -419,3 +423,73 @@ def replacement_functions(onnx, opset=18):
     return [helper.make_function(DOM + ".custom", "Twice", ["a"], ["b"],
                                  [helper.make_node("Add", ["a", "a"], ["b"], name="twice_add")],
                                  opset_imports=[helper.make_opsetid("", opset)])]
+
+
+def gen_plain(rng, onnx, idx, opset=18):
+    """Standard-domain ops only (so that the ONNX C-API fallback of convert_version can run), initializers below and above
+    the 1000-element limit of _c_api_utils, each of them listed among the graph inputs or not, optional model-local function."""
+    from onnx import TensorProto, helper
+    md = rng.random() < 0.7
+    rows = rng.choice([4, 5])
+    shape_big, shape_small = [rows, 300], [300]
+    inputs = [helper.make_tensor_value_info("x", TensorProto.FLOAT, shape_big)]
+    inits, nodes = [], []
+    cur = "x"
+    n_init = rng.randint(2, 5)
+    flags = []
+    for j in range(n_init):
+        big = (j == 0) or rng.random() < 0.5
+        as_input = (j == 0 and idx % 2 == 0) or rng.random() < 0.5
+        shape = shape_big if big else rng.choice([shape_small, [1], []])
+        n = int(np.prod(shape)) if shape else 1
+        nm = f"w{j}_{'big' if big else 'small'}{'_in' if as_input else ''}"
+        tp = onnx.TensorProto()
+        tp.name = nm
+        tp.data_type = TensorProto.FLOAT
+        tp.dims.extend(shape)
+        vals = [rng.choice([-2.5, 0.25, 3.0, 1.5, -0.75, 7.0, 11.0]) + (i % 13) for i in range(n)]
+        if rng.random() < 0.5:
+            tp.raw_data = struct.pack("<%df" % n, *vals)
+        else:
+            tp.float_data.extend(vals)
+        if md:
+            tp.doc_string = "doc " + nm
+        inits.append(tp)
+        if as_input:
+            inputs.append(helper.make_tensor_value_info(nm, TensorProto.FLOAT, shape))
+        flags.append((nm, big, as_input))
+        out = f"t{j}"
+        nd = helper.make_node(rng.choice(["Add", "Mul", "Sub"]), [cur, nm], [out], name=f"n{j}")
+        if md:
+            nd.doc_string = "node doc"
+            nd.metadata_props.add(key="nk", value="nv")
+        nodes.append(nd)
+        cur = out
+        if rng.random() < 0.4:
+            prev = nodes[-1].op_type
+            op = rng.choice([u for u in ("Relu", "Tanh", "Sigmoid", "Abs") if u != prev])
+            nodes.append(helper.make_node(op, [cur], [f"u{j}"], name=f"un{j}"))
+            cur = f"u{j}"
+    functions = []
+    if rng.random() < 0.35:
+        functions.append(helper.make_function(DOM + ".fn", "Affine", ["a"], ["b"],
+                                              [helper.make_node("Mul", ["a", "a"], ["aa"], name="fn_mul"),
+                                               helper.make_node("Tanh", ["aa"], ["b"], name="fn_tanh")],
+                                              opset_imports=[helper.make_opsetid("", opset)]))
+        nodes.append(helper.make_node("Affine", [cur], ["t_fn"], name="call_fn", domain=DOM + ".fn"))
+        cur = "t_fn"
+    nodes.append(helper.make_node("Neg", [cur], ["y"], name="to_y"))
+    g = helper.make_graph(nodes, "graph_plain", inputs, [helper.make_tensor_value_info("y", TensorProto.FLOAT, shape_big)], initializer=inits,
+                          doc_string="graph doc" if md else None)
+    if md:
+        g.metadata_props.add(key="gk", value="gv")
+    opsets = [helper.make_opsetid("", opset)] + ([helper.make_opsetid(DOM + ".fn", 1)] if functions else [])
+    m = helper.make_model(g, opset_imports=opsets, ir_version=rng.choice([8, 9, 10]), functions=functions)
+    if md:
+        m.producer_name = "c15 plain"
+        m.doc_string = "model doc"
+        m.metadata_props.add(key="mk", value="mv")
+    info = {"kind": "plain", "idx": idx, "metadata": md, "tensor_metadata": False, "vi_complete": False, "functions": len(functions),
+            "fn_used": bool(functions), "opset": opset, "elem_types": [1], "external": False,
+            "initializers": [{"name": a, "over_1000_elements": b, "also_graph_input": c} for a, b, c in flags]}
+    return m, info
